@@ -58,9 +58,9 @@ fn runs_for(property: &str, tier: Tier) -> u64 {
     match (property, tier) {
         ("C05", Tier::Tiny) | ("C08", Tier::Tiny) => 4_000,
         ("C05", Tier::Quick) => 300_000,
-        ("C05", Tier::Thorough) => 30_000_000,
+        ("C05", Tier::Thorough) => 20_000_000,
         ("C08", Tier::Quick) => 200_000,
-        ("C08", Tier::Thorough) => 15_000_000,
+        ("C08", Tier::Thorough) => 10_000_000,
         ("C07", Tier::Tiny) => 40,
         ("C07", Tier::Quick) => 4_000,
         ("C07", Tier::Thorough) => 2_000_000,
